@@ -326,7 +326,28 @@ def rule_nonetest(run):
         nonetest_rule(run, prog.func(M + 'read_' + sec), [tab])
     # attributes the module itself treats as "a number or None" (column surface, ...)
     from .optnum import optnum_rule
-    optnum_rule(run, ['mulgrids'])
+    # where a truthiness test would change what is read or written: the readers / writers and the element classes themselves
+    optnum_rule(run, ['mulgrids'], only=lambda fi: fi.name.startswith(('read', 'write')) or (fi.cls is not None and fi.cls.name != 'mulgrid'))
+    # the numeric fields of the by-name header record are attributes of the geometry (0 is a legal convention,
+    # atmosphere type and block-order flag; a blank field reads as None)
+    from .io_common import truth_uses, truth_uses_inner
+    names = [n for n, f in zip(*tab['header']) if f[-1] in 'defg']
+    subj = lambda z: isinstance(z, ast.Attribute) and z.attr in names
+    found = {}
+    for fi in prog.mod('mulgrids').all_functions():
+        for x in ast.walk(fi.node):
+            hits = []
+            if isinstance(x, (ast.If, ast.While, ast.IfExp)): hits = truth_uses(x.test, subj)
+            elif isinstance(x, ast.comprehension): hits = [h for t in x.ifs for h in truth_uses(t, subj)]
+            elif isinstance(x, ast.expr): hits = truth_uses_inner(x, subj)
+            for h in hits: found.setdefault(h.attr, (fi, h))
+    for nm in names:
+        key = 'mulgrid header :: numeric field %s never tested by truthiness' % nm
+        if nm in found:
+            fi, h = found[nm]
+            run.violated(key, '`%s` is used as a truth value in %s: the header field %s is a number (0 is a legal value) and None when blank, '
+                         'so a value of 0 is treated like a missing one' % (norm(h), fi.short, nm), where=fi.where(h))
+        else: run.ok(key)
 
 
 def rule_pure(run):
